@@ -54,7 +54,7 @@ impl Check for C12 {
         "exploration"
     }
     fn rule(&self) -> String {
-        "case = a coordinator log for one partition (2-14 transactions, 1-4 events, with their assigned sequence ranges) and a delivery schedule from the tape: every log transaction at least once in a permuted order, duplicates, conflicting transactions claiming an occupied expected sequence, and conflicting transactions keyed strictly inside the range of a multi-event transaction. Each delivery is a ReplicateWrite ask enqueued on the real node's mailbox in schedule order (the node acts as replica; its own remote ref is the coordinator); replies are awaited concurrently. Oracle: at every observation the replica's partition log is a prefix of the coordinator log (same transaction ids, event ids, sequences); after quiescence it contains exactly the longest prefix whose transactions were all delivered; duplicates get the same Ok; conflicting writes never succeed; no ask whose expected sequence lies below the replica's next sequence is still pending once the replica has settled (bounded wait of 15 s); the partition's replicator keeps answering (a probe write at the next sequence succeeds). Non-trivial: the schedule delivered a successor before its predecessor (buffering happened) and contains a conflict or an inside-range delivery.".into()
+        "case = a coordinator log for one partition (2-14 transactions, 1-4 events, with their assigned sequence ranges) and a delivery schedule from the tape: every log transaction at least once in a permuted order, duplicates, conflicting transactions claiming an occupied expected sequence, and conflicting transactions keyed strictly inside the range of a multi-event transaction. Each delivery is a ReplicateWrite ask enqueued on the real node's mailbox in schedule order (the node acts as replica; its own remote ref is the coordinator); replies are awaited concurrently. Oracle: at every observation the replica's partition log is a prefix of the coordinator log (same transaction ids, event ids, sequences); after quiescence it contains exactly the longest prefix whose transactions were all delivered; duplicates get the same Ok; conflicting writes never succeed; no ask whose expected sequence lies below the replica's next sequence is still pending 3 s after the replica holds the owed prefix (the replica's own buffer timeout is 8 s); the partition's replicator keeps answering (a probe write at the next sequence succeeds). Non-trivial: the schedule delivered a successor before its predecessor (buffering happened) and contains a conflict or an inside-range delivery.".into()
     }
     fn assumptions(&self) -> Vec<String> {
         vec![
@@ -64,7 +64,7 @@ impl Check for C12 {
     }
     fn plan(&self, tier: Tier) -> Plan {
         let quick = tier == Tier::Quick;
-        Plan { cases: if quick { 200 } else { 4000 }, max_tape: 8, min_slots: 4, max_slots: 40, shard_cases: 10, shard_timeout_s: if quick { 300 } else { 900 }, max_shrink_iters: 120, ..Plan::default() }
+        Plan { cases: if quick { 2400 } else { 24_000 }, max_tape: 8, min_slots: 4, max_slots: 40, shard_cases: 10, shard_timeout_s: if quick { 600 } else { 1200 }, max_shrink_iters: 40, ..Plan::default() }
     }
     fn abort_is_violation(&self) -> bool {
         true
@@ -222,6 +222,7 @@ impl Check for C12 {
             }
             let owed_events: u64 = log[..owed_tx].iter().map(|t| t.events.len() as u64).sum();
             let settle = tokio::time::Instant::now();
+            let mut reached_at: Option<tokio::time::Instant> = None;
             loop {
                 tokio::time::sleep(Duration::from_millis(25)).await;
                 let held = check_prefix(&db, p, &log, &starts).await.unwrap_or(usize::MAX) as u64;
@@ -229,7 +230,15 @@ impl Check for C12 {
                     let oc = outcomes.lock().unwrap();
                     schedule.iter().enumerate().all(|(di, _)| oc[di].is_some() || txs[di].expected_seq.into_next_version().unwrap() >= owed_events)
                 };
-                if (held >= owed_events && answered) || settle.elapsed() > Duration::from_secs(15) {
+                if held >= owed_events && reached_at.is_none() {
+                    reached_at = Some(tokio::time::Instant::now());
+                }
+                // the answers to writes keyed below the applied prefix are produced by the same
+                // handler that applied it: 3 s of grace after the prefix is complete is generous,
+                // and stays well below the node's own buffer timeout (8 s), after which a forgotten
+                // entry is dropped and its caller gets an error that would hide the defect
+                let grace_over = reached_at.map(|t| t.elapsed() > Duration::from_secs(3)).unwrap_or(false);
+                if (held >= owed_events && answered) || grace_over || settle.elapsed() > Duration::from_secs(15) {
                     break;
                 }
             }
